@@ -624,6 +624,9 @@ func (c *UintConverter) To(obj Object) (interface{}, error) {
 }
 
 func (c *UintConverter) From(obj interface{}) (Object, error) {
+	if u := obj.(uint); uint64(u) > 1<<63-1 {
+		return nil, errz.TypeErrorf("type error: %d is out of range for int", u)
+	}
 	return NewInt(int64(obj.(uint))), nil
 }
 
@@ -704,6 +707,9 @@ func (c *Uint64Converter) To(obj Object) (interface{}, error) {
 }
 
 func (c *Uint64Converter) From(obj interface{}) (Object, error) {
+	if u := obj.(uint64); u > 1<<63-1 {
+		return nil, errz.TypeErrorf("type error: %d is out of range for int", u)
+	}
 	return NewInt(int64(obj.(uint64))), nil
 }
 
